@@ -6,6 +6,7 @@ import os, re, glob
 import vlib, schedlib
 
 INSTR_FLAGS = ["-finstrument-functions", "-finstrument-functions-exclude-file-list=harness/,/usr/"]
+TIMER_WRAP = ["timerfd_create", "timerfd_settime"]     # harness/C04_driver.cc emulates the timerfd by an eventfd
 
 
 def build_impl():
@@ -16,14 +17,14 @@ def build_impl():
         ["C04_driver.cc"] + schedlib.SOURCES +
         [os.path.join(vlib.REPO, "muduo/net/EventLoop.cc"), os.path.join(vlib.REPO, "muduo/net/EventLoopThread.cc")],
         variant="asan", components=("base", "net"), extra_flags=schedlib.IO_FLAGS + INSTR_FLAGS,
-        wrap=schedlib.WRAP + schedlib.WRAP_IO)
+        wrap=schedlib.WRAP + schedlib.WRAP_IO + TIMER_WRAP)
 
 
 def build_impl_fast():
     """The same driver without sanitizers / instrumentation at -O2 (-fwrapv: int overflow wraps, as in the
     generated functions): only for pool cases with billions of getNextLoop() calls (header big=<K>)."""
     return vlib.build_driver("C05_poolbig", ["C04_driver.cc"] + schedlib.SOURCES, variant="ndebug", components=("base", "net"),
-                             extra_flags=schedlib.IO_FLAGS + ["-fwrapv"], wrap=schedlib.WRAP + schedlib.WRAP_IO)
+                             extra_flags=schedlib.IO_FLAGS + ["-fwrapv"], wrap=schedlib.WRAP + schedlib.WRAP_IO + TIMER_WRAP)
 
 
 # ------------------------------------------------------------------------------------ cases
@@ -147,7 +148,8 @@ class Runner:
             if lines is None or len(lines) < 2:
                 res[c.cid] = "REJECT model runner failed: %r" % (crashes.get(c.cid),)
             else:
-                res[c.cid] = lines[1]
+                # the verdict line (a pool case prints its selection results before it)
+                res[c.cid] = next((l for l in lines[1:] if l.startswith(("accepted", "REJECT"))), lines[1])
         return res
 
 
